@@ -163,8 +163,9 @@ CHECKS = {
   text="Coq theorems (C07/Props.v): every well-formed file of any nesting depth leaves no END error; a bare END reached while a block construct is open adds, "
        "from every reachable state, exactly one entry naming the END line on the construct; 'declared twice' is reported exactly on a declaration that follows "
        "a same-named one on a later line and never when names are distinct; 'procedure before CONTAINS', 'USE after IMPLICIT', 'IMPORT outside interface', "
-       "'module not found' characterised exactly; the complete invalid-parent table (procedure in a type or block construct, type in a type, ...), with a "
-       "refutation witness of the pinned rule for a type in a BLOCK (fixed). The transcribed rules are validated per scope against the implementation's own "
+       "'module not found' characterised exactly; the complete invalid-parent table (procedure in a type or block construct, type in a type, ...), lifted to whole program trees: "
+       "a well-formed file that respects the nesting rules has neither END errors nor invalid parents at any depth, and a misplaced construct is reported "
+       "on its opening line wherever it stands; a refutation witness of the pinned rule for a type in a BLOCK (fixed). The transcribed rules are validated per scope against the implementation's own "
        "check_* on every run. Silence on valid programs and presence/severity/line/no-unrelated-error for all 15 documented defect classes are checked by "
        "fault seeding into generated programs.",
   note="Partial. Trusted: Coq kernel, vm_compute, per-scope trace validation, the program generator and seeders. INTENT/dummy/type-accessibility/deferred classes are differential only.",
